@@ -47,6 +47,7 @@ func init() {
 		"vfFormatTime": vfFormatTime,
 		"vfStrIn":      vfStrIn,
 		"vfContains":   vfContains,
+		"vfDistinct":   vfDistinct,
 		"vfLog":        vfLog,
 		"vfEngine":     func(fr *frame, args []value) value { return true },
 		"vfYield":      vfYield,
@@ -86,16 +87,13 @@ func vfFloat(fr *frame, args []value) value {
 	return s
 }
 
-// vfIRI returns a symbolic string that stands for an absolute https IRI in
-// URL-normal form (url.Parse succeeds, scheme https, String() == itself).
+// vfIRI returns a symbolic IRI: an absolute https IRI in URL-normal form
+// (url.Parse succeeds, scheme https, non-empty host, String() == itself),
+// modelled as an element of the uninterpreted sort Atom: the code under test
+// only ever compares IRIs, looks at their host and scheme, and uses them as
+// map keys.
 func vfIRI(fr *frame, args []value) value {
-	pc := fr.i.pc
-	s := pc.fresh(argString(args[0], "tag"), "iri")
-	pc.assertTerm("(url_ok " + s.e + ")")
-	pc.assertTerm("(= (url_scheme " + s.e + ") \"https\")")
-	pc.assertTerm("(= (url_norm " + s.e + ") " + s.e + ")")
-	pc.assertTerm("(not (= (url_host " + s.e + ") \"\"))")
-	return s
+	return fr.i.pc.fresh(argString(args[0], "tag"), "iri")
 }
 
 func vfChoose(fr *frame, args []value) value {
@@ -148,17 +146,34 @@ func vfCover(fr *frame, args []value) value {
 }
 
 func (p *pathCtx) ufApply(name string, arg value, kind string) *sym {
-	a := symOf(arg)
+	var a *sym
+	argAtom := false
+	switch x := arg.(type) {
+	case *sym:
+		a = x
+		argAtom = x.s == sAtom
+	case string:
+		// ids are atoms: intern the literal
+		a = &sym{s: sAtom, e: p.litAtom(x), pc: p}
+		argAtom = true
+	default:
+		a = symOf(arg)
+	}
 	fn := "uf_" + name
+	argSort := "String"
+	if argAtom {
+		fn += "_a"
+		argSort = "Atom"
+	}
 	if !p.ufDecl[fn+kind] {
 		p.ufDecl[fn+kind] = true
 		switch kind {
 		case "bool":
-			p.sol.send("(declare-fun " + fn + " (String) Bool)\n")
+			p.sol.send("(declare-fun " + fn + " (" + argSort + ") Bool)\n")
 		case "int":
-			p.sol.send("(declare-fun " + fn + " (String) (_ BitVec 64))\n")
+			p.sol.send("(declare-fun " + fn + " (" + argSort + ") (_ BitVec 64))\n")
 		case "iri":
-			p.sol.send("(declare-fun " + fn + " (String) String)\n")
+			p.sol.send("(declare-fun " + fn + " (" + argSort + ") Atom)\n")
 		}
 	}
 	app := "(" + fn + " " + a.e + ")"
@@ -170,25 +185,19 @@ func (p *pathCtx) ufApply(name string, arg value, kind string) *sym {
 		}
 	}
 	if !seen {
-		p.ufApps = append(p.ufApps, ufApp{Name: name, Arg: a.e, App: app, Kind: kind})
+		p.ufApps = append(p.ufApps, ufApp{Name: name, Arg: a.e, App: app, Kind: kind, ArgAtom: argAtom})
 	}
 	switch kind {
 	case "bool":
 		return &sym{s: sBool, e: app}
 	case "iri":
-		if !seen {
-			p.assertTerm("(url_ok " + app + ")")
-			p.assertTerm("(= (url_scheme " + app + ") \"https\")")
-			p.assertTerm("(= (url_norm " + app + ") " + app + ")")
-			p.assertTerm("(not (= (url_host " + app + ") \"\"))")
-		}
-		return &sym{s: sStr, e: app}
+		return &sym{s: sAtom, e: app, pc: p}
 	default:
 		return &sym{s: sBV, w: 64, e: app}
 	}
 }
 
-// vfUFIRI(name, arg): uninterpreted function String -> IRI string.
+// vfUFIRI(name, arg): uninterpreted function id -> IRI.
 func vfUFIRI(fr *frame, args []value) value {
 	return fr.i.pc.ufApply(argString(args[0], "name"), args[1], "iri")
 }
@@ -252,6 +261,40 @@ func vfStrIn(fr *frame, args []value) value {
 		}
 	}
 	return mkBool(smtOr(parts))
+}
+
+// vfDistinct(list []string): assume the strings pairwise distinct (one
+// assertion); later equality tests between them are answered without a query.
+func vfDistinct(fr *frame, args []value) value {
+	pc := fr.i.pc
+	list, _ := args[0].([]value)
+	var terms []string
+	anyAtom := false
+	for _, e := range list {
+		if isAtom(e) {
+			anyAtom = true
+		}
+	}
+	for _, e := range list {
+		if cs, ok := e.(string); ok && anyAtom {
+			terms = append(terms, pc.litAtom(cs))
+			continue
+		}
+		terms = append(terms, symOf(e).e)
+	}
+	for i := range terms {
+		for j := i + 1; j < len(terms); j++ {
+			if terms[i] == terms[j] {
+				panic(pathAbort{"assume", "vfDistinct: identical terms"})
+			}
+			pc.distinct[terms[i]+"\x00"+terms[j]] = true
+			pc.distinct[terms[j]+"\x00"+terms[i]] = true
+		}
+	}
+	if len(terms) > 1 {
+		pc.assertTerm("(distinct " + strings.Join(terms, " ") + ")")
+	}
+	return nil
 }
 
 // vfContains(s, sub): strings.Contains as one term (no fork).
